@@ -8,16 +8,19 @@ EXTENDS Claims, TLC, Json, FiniteSets, SequencesExt
 CONSTANTS MaxDepth, Wide     \* Wide: TRUE = also binary combinations at depth 3 (thorough)
 
 Now == <<0, 0>>
-Strs == {"a", "b"}
+\* expected strings and claim strings include the empty string and proper prefixes of one another in both directions
+Strs == {"", "a", "ab"}
 
 \* all leaves have the same record shape so that TLC can put them in one set
 Leaf(op, s, k) == [op |-> op, s |-> s, k |-> k, now |-> Now]
 Leaves == {Leaf("time", "", 0), Leaf("leeway", "", 0), Leaf("leeway", "", 1), Leaf("hasexp", "", 0), Leaf("none", "", 0)}
           \cup {Leaf(o, s, 0) : o \in {"iss", "sub", "aud"}, s \in Strs}
 
-TimePoints == {<<c, f>> : c \in {0 - 2, 0 - 1, 0, 1, 2}, f \in {0 - 1, 0, 1}}
+\* near points: now + c leeway units + f nanoseconds;  far points (c = +-8: about 300 years away, beyond what a 64-bit
+\* nanosecond difference holds;  c = +-9: the ends of the representable range)
+TimePoints == {<<c, f>> : c \in {0 - 2, 0 - 1, 0, 1, 2}, f \in {0 - 1, 0, 1}} \cup {<<c, 0>> : c \in {0 - 9, 0 - 8, 8, 9}}
 OptTime == {<< >>} \cup {<<t>> : t \in TimePoints}
-OptStr == {<< >>, <<"a">>, <<"b">>}
+OptStr == {<< >>, <<"">>, <<"a">>, <<"ab">>, <<"b">>}
 Cl(exp, nbf, iss, sub, aud) == [exp |-> exp, nbf |-> nbf, iss |-> iss, sub |-> sub, aud |-> aud]
 \* time-related claims with fixed strings, string claims with fixed times
 ClaimsDomain == {Cl(e, n, <<"a">>, << >>, <<"b">>) : e \in OptTime, n \in OptTime}
